@@ -131,8 +131,16 @@ inline Gen<Value> doc_value(const DocOpts &o) {
                                         : shape == 4 ? head + u"\n" + longline + u" " + ustr(300, u'y') : head + u"\n" + longline.substr(0, (size_t) n - 8) + u"\t" + ustr(2100, u'y') + u" z";
                                  return Value::chr(s, true);
                              });
-    if (o.hard_text) return rc::gen::weightedOneOf<Value>({{30, value(o.vo, 0)}, {1, longv}, {1, foldv}, {1, tailv}, {1, pfxv}, {7, hard_text(o.dialect == cp::CIF11)}, {1, mimic_text(o.dialect == cp::CIF11)}});
-    return rc::gen::weightedOneOf<Value>({{30, value(o.vo, 0)}, {1, longv}, {1, foldv}, {1, tailv}, {1, pfxv}});
+    // long runs of semicolons: an unprefixed text field cannot be folded directly before a ';' (F-SEMIRUN)
+    auto semiv = rc::gen::map(rc::gen::tuple(rc::gen::element(2038, 2044, 2045, 2046, 2047, 2048, 2049, 2060, 3000, 4100, 6200), range(0, 5), range(0, 4)),
+                              [](std::tuple<int, int, int> t) {
+                                  static const char16_t *HEAD[] = {u"a", u"ab ", u"a b;c", u"x\ny", u" ", u"\\"};
+                                  static const char16_t *TAIL[] = {u"", u"b", u" b", u"\nz", u";\\"};
+                                  ustr s = HEAD[std::get<1>(t)]; s += ustr((size_t) std::get<0>(t), u';'); s += TAIL[std::get<2>(t)];
+                                  return Value::chr(s, true);
+                              });
+    if (o.hard_text) return rc::gen::weightedOneOf<Value>({{30, value(o.vo, 0)}, {1, longv}, {1, foldv}, {1, tailv}, {1, pfxv}, {1, semiv}, {7, hard_text(o.dialect == cp::CIF11)}, {1, mimic_text(o.dialect == cp::CIF11)}});
+    return rc::gen::weightedOneOf<Value>({{30, value(o.vo, 0)}, {1, longv}, {1, foldv}, {1, tailv}, {1, pfxv}, {1, semiv}});
 }
 
 inline Gen<Container> container(const DocOpts &o, const char16_t *stem, int idx, int depth) {
